@@ -86,6 +86,30 @@ Theorem c18_udp_both_dial_sites_no_scheme (is_ip : str -> bool) e path dial sock
 Proof. exact (udp_sites_configured_no_scheme is_ip e path dial socks t). Qed.
 Print Assumptions c18_udp_both_dial_sites_no_scheme.
 
+(** NewUpstream is a function of its arguments only: in a sequence of calls
+    (for instance sharing one Opt.TLSConfig) every upstream is the one the call
+    alone would give; so with ServerName left empty the TLS name of each is its
+    own URL host, whatever was created before. (Trivial over the model, which
+    has no state; the content is that the Go code agrees with it on sequences
+    created from one shared tls.Config, and leaves that config unchanged.) *)
+Theorem c18_calls_independent (is_ip : str -> bool) before c after :
+  nth_error (new_upstreams is_ip (before ++ c :: after)) (length before)
+  = Some (new_upstream is_ip (fst (fst c)) (snd (fst c)) (snd c)).
+Proof. exact (new_upstreams_independent is_ip before c after). Qed.
+Print Assumptions c18_calls_independent.
+
+Theorem c18_tls_name_in_any_sequence (is_ip : str -> bool) before after nm tr def e path dial socks :
+  In (nm, tr, def) scheme_table -> has_tls_name tr = true ->
+  wf_ep e = true -> url_ok_ep e = true -> wf_path path = true -> dial_wf dial = true ->
+  needs_ip tr socks && negb (is_ip (ep_host (eff_ep e dial))) = false ->
+  exists t,
+    nth_error (new_upstreams is_ip
+                 (before ++ (lit nm ++ lit "://" ++ render_ep e ++ path, render_dial dial, socks) :: after))
+              (length before) = Some (Some t)
+    /\ effective_tls_name [] t = Some (ep_host e).
+Proof. exact (seq_tls_name is_ip before after nm tr def e path dial socks). Qed.
+Print Assumptions c18_tls_name_in_any_sequence.
+
 (** With Opt.Bootstrap: resolving the host through the bootstrap server
     changes neither the host that is resolved nor the port — the connection
     goes to (address of the host the user wrote) : (the port the user wrote,
